@@ -14,6 +14,20 @@ use serde::{Deserialize, Serialize};
 use serde_json::Value;
 use std::collections::BTreeMap;
 
+/// Signatures carry no ':' (the driver shrinks within the text before the first ':'; with a
+/// colon-free signature a failure can only shrink to a case with exactly the same signature, so an
+/// unknown failure can never be minimised into a tolerated known one). Panics keep their form.
+fn vfail(sig: impl Into<String>, detail: impl Into<String>) -> Verdict {
+    Verdict::fail(nsig(&sig.into()), detail)
+}
+fn nsig(s: &str) -> String {
+    if s.starts_with("panic:") {
+        s.to_string()
+    } else {
+        s.trim_end_matches(':').replace(':', "/")
+    }
+}
+
 pub const C43_PL: &str = include_str!("../../prolog/c43.pl");
 
 #[derive(Clone, Debug, Serialize, Deserialize)]
@@ -690,10 +704,10 @@ pub fn check(env: &mut Env, case: &Case) -> Verdict {
         Outcome::Sols(v) if v.len() == 1 => v[0].clone(),
         Outcome::Panic(m) => {
             let loc = m.split_whitespace().next().unwrap_or("?");
-            return Verdict::fail(format!("panic:{loc}"), format!("history {} panicked: {m}", case.items.iter().map(show_item).collect::<Vec<_>>().join(", ")));
+            return vfail(format!("panic:{loc}"), format!("history {} panicked: {m}", case.items.iter().map(show_item).collect::<Vec<_>>().join(", ")));
         }
         Outcome::Harness(m) => return Verdict::Discard(format!("harness:{}", m.chars().take(40).collect::<String>())),
-        other => return Verdict::fail("driver:unexpected", format!("c43_run gave {}", other.short())),
+        other => return vfail("driver:unexpected", format!("c43_run gave {}", other.short())),
     };
     let Some(results) = as_items(&out) else { return Verdict::Discard("harness:result-not-a-list".into()) };
     if results.len() != case.items.len() + 1 {
@@ -704,10 +718,10 @@ pub fn check(env: &mut Env, case: &Case) -> Verdict {
         T::Cmp(f, a) if f == "t" && a.len() == 1 => triples(&a[0]),
         _ => None,
     };
-    let Some(t0) = t0 else { return Verdict::fail("table-initial:undecodable", format!("initial enumeration: {}", results[0].text())) };
+    let Some(t0) = t0 else { return vfail("table-initial:undecodable", format!("initial enumeration: {}", results[0].text())) };
     let mut tab = match to_table(&t0) {
         Ok(t) => t,
-        Err(e) => return Verdict::fail("table-initial:malformed", format!("initial table: {e}")),
+        Err(e) => return vfail("table-initial:malformed", format!("initial table: {e}")),
     };
     // `,` must be present and never changes; [] {} are never operators
     let comma0 = tab.get(&(",".to_string(), INF)).cloned();
@@ -739,10 +753,10 @@ pub fn check(env: &mut Env, case: &Case) -> Verdict {
                     return Verdict::Discard("harness:result-shape".into());
                 }
                 let exp = op_expect(&tab, p, t, n);
-                let Some(obs) = triples(&rargs[1]) else { return Verdict::fail("table:undecodable", format!("after {}: {}", hist(), rargs[1].text())) };
+                let Some(obs) = triples(&rargs[1]) else { return vfail("table:undecodable", format!("after {}: {}", hist(), rargs[1].text())) };
                 let obs_tab = match to_table(&obs) {
                     Ok(t) => t,
-                    Err(e) => return Verdict::fail(format!("table:malformed:{}", e.split_whitespace().next().unwrap_or("?")), format!("after {}: {e}", hist())),
+                    Err(e) => return vfail(format!("table:malformed:{}", e.split_whitespace().next().unwrap_or("?")), format!("after {}: {e}", hist())),
                 };
                 let is_list = matches!(n, T::PList(..));
                 let shape = if is_list { "list" } else { "single" };
@@ -750,7 +764,7 @@ pub fn check(env: &mut Env, case: &Case) -> Verdict {
                     T::Atom(a) if a == "yes" => match &exp.success {
                         Some(want) => {
                             if &obs_tab != want {
-                                return Verdict::fail(format!("table-after-accepted:{shape}"), format!("after {}: table is {} but the model says {}", hist(), diff(&obs_tab, want), "(see diff: observed-only / model-only)"));
+                                return vfail(format!("table-after-accepted:{shape}"), format!("after {}: table is {} but the model says {}", hist(), diff(&obs_tab, want), "(see diff: observed-only / model-only)"));
                             }
                             tab = want.clone();
                             accepted += 1;
@@ -767,22 +781,22 @@ pub fn check(env: &mut Env, case: &Case) -> Verdict {
                             }
                         }
                         None => {
-                            return Verdict::fail(
+                            return vfail(
                                 format!("op-accepted-invalid:{}:{shape}", exp.errors[0].text()),
                                 format!("{} succeeded; expected one of {:?} (history: {})", show_item(it), exp.errors.iter().map(|e| e.text()).collect::<Vec<_>>(), hist()),
                             );
                         }
                     },
                     T::Atom(a) if a == "no" => {
-                        return Verdict::fail(format!("op-failed:{shape}"), format!("{} failed silently (history: {})", show_item(it), hist()));
+                        return vfail(format!("op-failed:{shape}"), format!("{} failed silently (history: {})", show_item(it), hist()));
                     }
                     T::Cmp(f, b) if f == "ex" && b.len() == 1 => {
-                        let Some(formal) = formal_of(&b[0]) else { return Verdict::fail("op-non-iso-ball:", format!("{} threw {} (history: {})", show_item(it), b[0].text(), hist())) };
+                        let Some(formal) = formal_of(&b[0]) else { return vfail("op-non-iso-ball:", format!("{} threw {} (history: {})", show_item(it), b[0].text(), hist())) };
                         if exp.errors.is_empty() {
-                            return Verdict::fail(format!("op-rejected-valid:{}:{shape}", formal.text()), format!("{} raised {}; the model accepts it (history: {})", show_item(it), formal.text(), hist()));
+                            return vfail(format!("op-rejected-valid:{}:{shape}", formal.text()), format!("{} raised {}; the model accepts it (history: {})", show_item(it), formal.text(), hist()));
                         }
                         if !exp.errors.iter().any(|e| e.eq_struct(&formal)) {
-                            return Verdict::fail(
+                            return vfail(
                                 format!("op-wrong-error:{}:{shape}", formal.text()),
                                 format!("{} raised {}; expected one of {:?} (history: {})", show_item(it), formal.text(), exp.errors.iter().map(|e| e.text()).collect::<Vec<_>>(), hist()),
                             );
@@ -795,7 +809,7 @@ pub fn check(env: &mut Env, case: &Case) -> Verdict {
                                 tab = exp.err_tables[k].clone();
                             }
                             None => {
-                                return Verdict::fail(format!("table-after-rejected:{shape}"), format!("after rejected {}: table changed: {} (history: {})", show_item(it), diff(&obs_tab, &tab), hist()));
+                                return vfail(format!("table-after-rejected:{shape}"), format!("after rejected {}: table changed: {} (history: {})", show_item(it), diff(&obs_tab, &tab), hist()));
                             }
                         }
                         push("rejected", &mut classes);
@@ -814,7 +828,7 @@ pub fn check(env: &mut Env, case: &Case) -> Verdict {
                     other => return Verdict::Discard(format!("harness:op-result {}", other.text().chars().take(30).collect::<String>())),
                 }
                 if tab.get(&(",".to_string(), INF)) != comma0.as_ref() {
-                    return Verdict::fail("comma-changed:", format!("',' changed after {}", hist()));
+                    return vfail("comma-changed:", format!("',' changed after {}", hist()));
                 }
             }
             Item::Q { p, t, n } => {
@@ -822,23 +836,23 @@ pub fn check(env: &mut Env, case: &Case) -> Verdict {
                 let exp = q_expect(&tab, p, t, n);
                 let fail: Option<Verdict> = match (&exp, &rargs[0]) {
                     (Ok(want), T::Cmp(f, a)) if f == "ok" && a.len() == 1 => match triples(&a[0]) {
-                        None => Some(Verdict::fail(format!("current_op-mode:{mode}:undecodable"), format!("{} gave {}", show_item(it), a[0].text()))),
+                        None => Some(vfail(format!("current_op-mode:{mode}:undecodable"), format!("{} gave {}", show_item(it), a[0].text()))),
                         Some(mut got) => {
                             got.sort();
                             if &got == want {
                                 None
                             } else {
                                 let what = if got.len() < want.len() { "missing" } else if got.len() > want.len() { "extra" } else { "different" };
-                                Some(Verdict::fail(format!("current_op-mode:{mode}:{what}"), format!("{} gave {:?}; the table has {:?} (history: {})", show_item(it), got, want, hist())))
+                                Some(vfail(format!("current_op-mode:{mode}:{what}"), format!("{} gave {:?}; the table has {:?} (history: {})", show_item(it), got, want, hist())))
                             }
                         }
                     },
                     (Err(errs), T::Cmp(f, b)) if f == "ex" && b.len() == 1 => match formal_of(&b[0]) {
                         Some(formal) if errs.iter().any(|e| e.eq_struct(&formal)) => None,
-                        _ => Some(Verdict::fail(format!("current_op-error:{mode}:wrong"), format!("{} raised {}; expected one of {:?}", show_item(it), b[0].text(), errs.iter().map(|e| e.text()).collect::<Vec<_>>()))),
+                        _ => Some(vfail(format!("current_op-error:{mode}:wrong"), format!("{} raised {}; expected one of {:?}", show_item(it), b[0].text(), errs.iter().map(|e| e.text()).collect::<Vec<_>>()))),
                     },
-                    (Ok(_), other) => Some(Verdict::fail(format!("current_op-mode:{mode}:raised"), format!("{} gave {} (history: {})", show_item(it), other.text(), hist()))),
-                    (Err(errs), other) => Some(Verdict::fail(
+                    (Ok(_), other) => Some(vfail(format!("current_op-mode:{mode}:raised"), format!("{} gave {} (history: {})", show_item(it), other.text(), hist()))),
+                    (Err(errs), other) => Some(vfail(
                         format!("current_op-error:{mode}:none"),
                         format!("{} gave {}; expected one of {:?}", show_item(it), other.text().chars().take(200).collect::<String>(), errs.iter().map(|e| e.text()).collect::<Vec<_>>()),
                     )),
@@ -871,9 +885,9 @@ pub fn check(env: &mut Env, case: &Case) -> Verdict {
                     T::Cmp(f, x) if f == "ok" && x.len() == 1 => Ok(x[0].clone()),
                     T::Cmp(f, x) if f == "ex" && x.len() == 1 => match formal_of(&x[0]) {
                         Some(T::Cmp(e, _)) if e == "syntax_error" => Err("syntax_error".into()),
-                        _ => return Verdict::fail(format!("parse:{letter}:non-syntax-error"), format!("reading \"{text}\" raised {} (history: {})", x[0].text(), hist())),
+                        _ => return vfail(format!("parse:{letter}:non-syntax-error"), format!("reading \"{text}\" raised {} (history: {})", x[0].text(), hist())),
                     },
-                    other => return Verdict::fail(format!("parse:{letter}:failed"), format!("reading \"{text}\" gave {} (history: {})", other.text(), hist())),
+                    other => return vfail(format!("parse:{letter}:failed"), format!("reading \"{text}\" gave {} (history: {})", other.text(), hist())),
                 };
                 let ok = match (&exp, &got) {
                     (PExp::Term(w), Ok(g)) => g.norm().eq_struct(&w.norm()),
@@ -889,8 +903,8 @@ pub fn check(env: &mut Env, case: &Case) -> Verdict {
                         _ => "wrong-term",
                     };
                     let ops: Vec<String> = tab.iter().filter(|((nm, _), _)| nm == a || nm == b).map(|((nm, _), (p, s))| format!("op({p},{s},{nm})")).collect();
-                    let sig = format!("parse:{letter}:{what}:{}", probe_ctx(&tab, *shape, a, b));
-                    let v = Verdict::fail(
+                    let sig = nsig(&format!("parse:{letter}:{what}:{}", probe_ctx(&tab, *shape, a, b)));
+                    let v = vfail(
                         sig.clone(),
                         format!("reading \"{text}\" gave {}; expected {:?}; operators of the names: {:?} (history: {})", match &got { Ok(g) => g.text(), Err(e) => e.clone() }, exp, ops, hist()),
                     );
@@ -937,14 +951,14 @@ pub fn check_ball(env: &mut Env, c: &BallCase) -> Verdict {
             if v[0].norm().eq_struct(&want.norm()) {
                 Verdict::pass(true, &["ball-culprit"])
             } else {
-                Verdict::fail("ball-culprit:wrong", format!("culprit of the conflict error decodes to {}", v[0].text()))
+                vfail("ball-culprit:wrong", format!("culprit of the conflict error decodes to {}", v[0].text()))
             }
         }
-        Outcome::Panic(m) => Verdict::fail(
+        Outcome::Panic(m) => vfail(
             "ball-culprit:atom_codes-panic",
             format!("op(200,{},foo), op(200,{},foo) raises permission_error(create,operator,C); atom_codes(C,_) panics: {m}", c.first, c.second),
         ),
-        other => Verdict::fail("ball-culprit:other", format!("{}", other.short())),
+        other => vfail("ball-culprit:other", format!("{}", other.short())),
     }
 }
 
